@@ -383,4 +383,24 @@ theorem xover_step (mac : MacFn) (net : Net) (now src dst : Nat) (cd2 : Bool)
     rw [this]
     exact incPath_mkCur _ _ [] h2 t2 after2 ht2
 
+/-- a transit AS finds the current hop field expired: SCMP "path expired" is requested and the
+    packet handed to the slow path already carries the SegID as updated at ingress -/
+theorem expired_step (mac : MacFn) (net : Net) (now src dst : Nat) (cd : Bool) (ts seg a i : Nat)
+    (h : Hop) (before : List Seg) (done todo : List Hop) (after : List Seg)
+    (hb : ∀ s ∈ before, s.hops.length ≠ 1) (ha : ∀ s ∈ after, s.hops.length ≠ 1)
+    (hlen : done.length + 1 + todo.length ≠ 1) (hi0 : i ≠ 0)
+    (hexp : expired now ts h.exp = true) :
+    routerStep mac (cfgOf net a) now (.ext i) (a == src) (a == dst)
+        ⟨before, ⟨cd, false, seg, ts⟩, done, h, todo, after⟩ =
+      .slow 4 52 0 ⟨before, ⟨cd, false, usedSeg cd seg h, ts⟩, done, h, todo, after⟩ := by
+  have hing : ingUpd ⟨before, ⟨cd, false, seg, ts⟩, done, h, todo, after⟩ (.ext i) false =
+      ⟨before, ⟨cd, false, usedSeg cd seg h, ts⟩, done, h, todo, after⟩ := by
+    cases cd <;> simp [ingUpd, usedSeg, Arrival.ifid, hi0]
+  have hs := hasSingleton_false before ⟨cd, false, seg, ts⟩ done h todo after hb ha hlen
+  unfold routerStep stIngress
+  simp only [hs, Bool.and_false, Bool.false_eq_true, if_false, determinePeer, Bool.not_false,
+    if_true, hing]
+  unfold stChecks
+  simp [hexp]
+
 end Scion.Net
